@@ -78,7 +78,9 @@ def generate(ctx, rng):
         nonlocal n
         n += 1
         c = {"kind": "valid", "pairs": pairs, "state": gen.random_state(rng), "display": rng.random() < 0.5, "v3": rng.random() < 0.25,
-             "caps": rng.random() < 0.2, "dseed": rng.getrandbits(32)}
+             "caps": rng.random() < 0.2, "dseed": rng.getrandbits(32), "auto": False}
+        if not c["v3"] and rng.random() < 0.15:
+            c["auto"] = True      # --auto: discovery of the (V2) device instead of manual construction
         c.update(kw)
         return ("v", n), c
 
@@ -130,9 +132,10 @@ def generate(ctx, rng):
         yield case(chosen)
     # invalid catalogue
     for i, inv in enumerate(INVALID):
-        for v3 in (False, True):
+        for v3, auto in ((False, False), (True, False), (False, True)):
             n += 1
-            yield ("i", n), {"kind": "invalid", "args": inv, "state": gen.random_state(rng), "display": True, "v3": v3, "caps": False, "dseed": i}
+            yield ("i", n), {"kind": "invalid", "args": inv, "state": gen.random_state(rng), "display": True, "v3": v3, "caps": False, "dseed": i,
+                             "auto": auto}
     for _ in range(40 if quick else 2000):
         good = rng.sample(singles, rng.randint(0, 2))
         bad = rng.choice([x for x in INVALID if len(x) == 1])
@@ -194,9 +197,16 @@ def _mkdev(case):
                          (0x00E3, b"\x01"), (0x0009, b"\x01"), (0x000A, b"\x01"), (0x0224, b"\x01")]]
     model.props = {0x0043: b"\x01", 0x0048: b"\x64", 0x00E3: b"\x00\x00", 0x0009: b"\x00", 0x000A: b"\x00", 0x0042: b"\x01", 0x0018: b"\x00"}
     token, key = bytes(range(64)), bytes(range(32))
-    dev = SimDevice(net, host=HOST, port=6444, version=3 if case["v3"] else 2, token=token, key=key, device_id=(77 if case["v3"] else 0), ac=model,
-                    seed=case["dseed"])
+    auto = bool(case.get("auto"))
+    dev = SimDevice(net, host=HOST, port=(7001 if auto else 6444), version=3 if case["v3"] else 2, token=token, key=key,
+                    device_id=(77 if case["v3"] else (0x5A17 if auto else 0)), ac=model, seed=case["dseed"])
     argv = ["control", HOST]
+    if auto:
+        from ..ref import discovery as D
+        from ..simdev import SimHost
+        reply = D.build_reply(2, 0x5A17, D.build_payload(HOST, 7001, b"000000P0000000Q1F0C9D153F7B40000", b"net_ac_F7B4"))
+        SimHost(net, HOST, 6445, [(0.05, None, reply)])
+        argv += ["--auto"]
     if case["v3"]:
         argv += ["--id", "77", "--token", token.hex(), "--key", key.hex()]
     if case.get("caps"):
@@ -226,7 +236,7 @@ def run_case(ctx, case):
     pairs = case["pairs"]
     args = [f"{n}={sp}" for n, sp, _ in pairs]
     status, crash = _run_cli(argv + args, net)
-    key = ("valid", tuple(args), case["v3"], case["display"], case.get("caps"), gen.state_key({**gen.base_state(), **case["state"]}))
+    key = ("valid", tuple(args), case["v3"], case.get("auto"), case["display"], case.get("caps"), gen.state_key({**gen.base_state(), **case["state"]}))
     if status != 0:
         ctx.count(key, kind="valid-rejected")
         ctx.violation("documented-spelling-rejected/" + pairs[0][0], f"documented command line {args} exited with status {status}"
